@@ -3587,6 +3587,7 @@ impl VectorEngine {
         // Oversample to get more candidates
         let oversample_k = top_k.saturating_mul(config.oversample_factor).max(top_k);
         let candidates = self.search_similar(query, oversample_k)?;
+        let truncated = candidates.len() >= oversample_k;
 
         // Filter candidates
         let filtered: Vec<SearchResult> = candidates
@@ -3594,6 +3595,12 @@ impl VectorEngine {
             .filter(|r| self.evaluate_filter_for_key(&r.key, filter))
             .take(top_k)
             .collect();
+
+        // The oversampled window was full and still held fewer than k matches:
+        // matches may lie beyond it, so fall back to the exact pre-filter scan.
+        if filtered.len() < top_k && truncated {
+            return Ok(self.search_with_pre_filter(query, top_k, filter));
+        }
 
         Ok(filtered)
     }
